@@ -31,12 +31,19 @@ def lanczos_iteration(Afunc, vstart, numiter):
     V = np.zeros((numiter, len(vstart)), dtype=complex)
     V[0] = vstart
 
+    # tolerance for detecting an exhausted Krylov subspace
+    tol = 100*len(vstart)*np.finfo(float).eps
+
     for j in range(numiter-1):
         w = Afunc(V[j])
+        if j == 0:
+            # relative to the magnitude of the linear transformation
+            # (rounding errors of a vanishing residual scale with it)
+            tol *= max(1, np.max(np.abs(w)))
         alpha[j] = np.vdot(w, V[j]).real
         w = w - (alpha[j]*V[j] + (beta[j-1]*V[j-1] if j > 0 else 0))
         beta[j] = np.linalg.norm(w)
-        if beta[j] < 100*len(vstart)*np.finfo(float).eps:
+        if beta[j] < tol:
             warnings.warn(
                 f'beta[{j}] ~= 0 encountered during Lanczos iteration.',
                 RuntimeWarning)
@@ -75,14 +82,21 @@ def arnoldi_iteration(Afunc, vstart, numiter):
     V = np.zeros((numiter, len(vstart)), dtype=complex)
     V[0] = vstart
 
+    # tolerance for detecting an exhausted Krylov subspace
+    tol = 100*len(vstart)*np.finfo(float).eps
+
     for j in range(numiter-1):
         w = Afunc(V[j])
+        if j == 0:
+            # relative to the magnitude of the linear transformation
+            # (rounding errors of a vanishing residual scale with it)
+            tol *= max(1, np.max(np.abs(w)))
         # subtract the projections on previous vectors
         for k in range(j+1):
             H[k, j] = np.vdot(V[k], w)
             w = w - H[k, j]*V[k]
         H[j+1, j] = np.linalg.norm(w)
-        if H[j+1, j] < 100*len(vstart)*np.finfo(float).eps:
+        if H[j+1, j] < tol:
             warnings.warn(
                 f'H[{j+1}, {j}] ~= 0 encountered during Arnoldi iteration.',
                 RuntimeWarning)
